@@ -3,8 +3,11 @@
    [mstmt] objects are the statements of the generator (lib/qgen.py emits them as Coq terms and renders them
    as SQL): every table / column / function name carries the knowledge of the position it was placed in.
    [ast_stmt] is the prescribed tree (what pkg/sql/parser builds for the rendered text, as observed:
-   TableName = first FROM item, the first JoinClause.Left repeats the first FROM item, later ones carry the
-   synthetic "(x_with_n_joins)" name, aliased select items are wrapped, parentheses leave no node).
+   TableName = first FROM item, the first JoinClause.Left repeats the FROM item the join attaches to ([join_left]:
+   the LAST item of the comma list — JOIN binds tighter than the comma), later ones carry the synthetic
+   "(x_with_n_joins)" name built from that item, aliased select items are wrapped, parentheses leave no node).
+   The places where the parser's representation choices enter are single definitions: [join_left],
+   [synthetic_left], [ast_niladic] / [items_niladic], [wrap_alias], [wrap_with], [ob_wrap], [shared_copy].
    [items] is the specification: the names written in table / column / function positions. *)
 From Coq Require Import List String Ascii NArith Bool DecimalString.
 From GV Require Import Model.Walk Model.QAst Model.Extract.
@@ -37,6 +40,7 @@ Inductive mexpr :=
 | MExists (s : mstmt)
 | MSub (s : mstmt)
 | MCast (e : mexpr) (ty : string)
+| MNiladic (f : name)                       (* niladic keyword function written without parentheses: CURRENT_DATE *)
 with mexprs := ENil | ECons (e : mexpr) (r : mexprs)
 with mwhens := WNil | WCons (c r : mexpr) (rest : mwhens)
 with mopt := ONone | OSome (e : mexpr)
@@ -85,6 +89,17 @@ Definition nat_str (n : nat) : string := NilEmpty.string_of_uint (Nat.to_uint n)
 Definition synthetic_left (first : string) (i : nat) : string :=
   "(" ++ first ++ "_with_" ++ nat_str i ++ "_joins)".
 
+(* the FROM item a JOIN list attaches to: the last one of the comma-separated list (parser: select.go, f66be25) *)
+Definition join_left (fr : list qn) : list qn :=
+  match rev fr with f :: _ => [f] | [] => [] end.
+
+(* a niladic keyword function (CURRENT_DATE ...): prescribed as a FunctionCall without arguments, reported by
+   ExtractFunctions.  lib/qgen.py emits MNiladic only while the parser represents it this way (probed each run);
+   a different representation is a change of these two definitions. *)
+Definition ast_niladic (f : string) : qn := QN KFunc (nameA f) [].
+Inductive item := ITable (n : string) | ICol (q n : string) | IFunc (n : string).
+Definition items_niladic (f : string) : list item := [IFunc f].
+
 Definition wrap_alias (e : qn) (alias : string) : qn :=
   if nonempty alias then QN KAliased (aliasA "" alias) [(SExpr, [e])] else e.
 
@@ -114,6 +129,7 @@ Fixpoint ast_expr (e : mexpr) : qn :=
   | MExists s => QN KExists noA [(SSubquery, [ast_stmt s])]
   | MSub s => QN KSubquery noA [(SSubquery, [ast_stmt s])]
   | MCast x ty => QN KCast (mkA "" "" "" "" ty "" []) [(SExpr, [ast_expr x])]
+  | MNiladic f => ast_niladic (nstr f)
   end
 with ast_exprs (l : mexprs) : list qn :=
   match l with ENil => [] | ECons e r => ast_expr e :: ast_exprs r end
@@ -180,7 +196,7 @@ with ast_stmt (s : mstmt) : qn :=
       QN KSelect (nameA (match fr with f :: _ => q_name f | [] => "" end))
          [(SWith, wrap_with (ast_ctes w));
           (SColumns, ast_items cols); (SFrom, fr);
-          (SJoins, ast_joins (match fr with f :: _ => [f] | [] => [] end) 0 joins);
+          (SJoins, ast_joins (join_left fr) 0 joins);
           (SWhere, ast_opt wh); (SGroupBy, ast_exprs gb); (SHaving, ast_opt hv);
           (SOrderBy, map ob_wrap (ast_exprs ob))]
   | MSetOp op l r => QN KSetOp (opA op) [(SLeft, [ast_stmt l]); (SRight, [ast_stmt r])]
@@ -205,7 +221,6 @@ with ast_stmt (s : mstmt) : qn :=
   end.
 
 (* ---- the specification: names written in table / column / function positions ---- *)
-Inductive item := ITable (n : string) | ICol (q n : string) | IFunc (n : string).
 
 Fixpoint items_expr (e : mexpr) : list item :=
   match e with
@@ -220,6 +235,7 @@ Fixpoint items_expr (e : mexpr) : list item :=
   | MBetween x lo hi => items_expr x ++ items_expr lo ++ items_expr hi
   | MExists s | MSub s => items s
   | MCast x _ => items_expr x
+  | MNiladic f => items_niladic (nstr f)
   end
 with items_exprs (l : mexprs) : list item :=
   match l with ENil => [] | ECons e r => items_expr e ++ items_exprs r end
